@@ -4,6 +4,7 @@ import re
 
 from .. import fde, tables
 from ..flow import GuardMap
+from ..specialise import flat
 from ..model import AnalysisError, norm
 from .c01 import getmap, calcs, ctor_calls, sign_chain, sign_leaf
 from .c06 import kinds_and_methods
@@ -198,10 +199,25 @@ def agg(run, p):
         f = pc.methods.get(name)
         if f is None:
             raise AnalysisError('PandasConstraintCalculator.%s vanished' % name)
-        used = {n.func.attr for n in ast.walk(f.node) if isinstance(n, ast.Call) and isinstance(n.func, ast.Attribute) and n.func.attr in ('min', 'max')}
+        # the body the calculator runs: a wrapper over a shared helper is read specialised (reduction='min' folded in), and
+        # private helpers of the class it calls on the way (string lengths of the column ...) belong to it
+        g = flat(p, f, pc.qn)
+        nodes = list(ast.walk(g.node))
+        todo, seen_h = [g], set()
+        while todo:
+            h = todo.pop()
+            for n in ast.walk(h.node):
+                if isinstance(n, ast.Call) and isinstance(n.func, ast.Attribute) and isinstance(n.func.value, ast.Name) and n.func.value.id == 'self' \
+                        and not n.func.attr.startswith('calc_') and n.func.attr not in seen_h:
+                    hm = p.lookup_method(pc.qn, n.func.attr)
+                    if hm is not None and hm.cls is not None and hm.cls.qn == pc.qn:
+                        seen_h.add(n.func.attr)
+                        nodes += list(ast.walk(hm.node))
+                        todo.append(hm)
+        used = {n.func.attr for n in nodes if isinstance(n, ast.Call) and isinstance(n.func, ast.Attribute) and n.func.attr in ('min', 'max')}
         ok = used == {want}
         if 'length' in name:
-            ok = ok and any(isinstance(n, ast.Attribute) and n.attr == 'len' for n in ast.walk(f.node))
+            ok = ok and any(isinstance(n, ast.Attribute) and n.attr == 'len' for n in nodes)
         run.ob('C07-AGG', '%s::%s' % (f.rel, f.short), ok, '%s aggregates with %s' % (name, sorted(used)), fn=f)
     sh = p.cls('SQLDatabaseHandler')
     for name, want in (('get_database_min', 'MIN'), ('get_database_max', 'MAX'), ('get_database_min_length', 'MIN'), ('get_database_max_length', 'MAX')):
